@@ -76,7 +76,7 @@ def run_case(case, ctx):
     else:
         f = D.gen_daqmx(rng, max_segs=3)
         n = len(f.segs)
-        multibyte_digital = f.digital and any(D.DQ[s['t']][1] > 1 for c in f.chans for s in c['scalers'])
+        multibyte_digital = False     # digital lines are defined on the integer value of the field, so byte order is well defined
         variants = {'little': ['<'] * n}
         if not multibyte_digital:
             variants['big'] = ['>'] * n
